@@ -22,6 +22,7 @@ THEOREMS = [
     "C16_next_id_monotone",
     "C16_ids_stable",
     "C16_ids_stable_without_cycle_hyp_refuted",
+    "C16_name_key_stable",
     "C16_entries_closed",
     "C16_entries_closed_after_failed_batch_refuted",
     "C16_readd_same_id",
@@ -35,6 +36,10 @@ THEOREMS = [
     "C16_accepted_batch_names_distinct",
     "C16_names_unique_after_rejected_batch_refuted",
     "C16_names_unique_inner_title_refuted",
+    "C16_split_permutation",
+    "C16_split_renaming_bijective",
+    "C16_renaming_keeps_name_and_key",
+    "C16_reachable_states_consistent",
     "C16_split_independent_partial",
 ]
 
